@@ -23,7 +23,7 @@ META = {"assumptions": ["isinstance / == on user classes and values are their ow
 
 T = Sym(("T",), {CLS})
 A0, A1 = Sym(("A0",), {CLS}), Sym(("A1",), {CLS})
-VALUE = Sym(("value",), {ARG}, tags={"nonsentinel"})
+VALUE = Sym(("value",), {ARG})        # may be None (None is a value like any other for check_type)
 
 SHAPES = {
     # name: (attr_type value, origin ExtV name | None, args, facts about T)
@@ -242,19 +242,24 @@ def bounded_worker(combo):
     return {"combo": combo, "res": res}
 
 
-def check(ctx, rep: Report):
-    rep.extra["exhaustive"] = True
-    rep.rules["C15.S"] = "residual decision structure of check_type per annotation shape vs oracle; non-trivial = distinct residual paths"
+def shapes_rule(ctx, rep, rule="C15.S"):
+    rep.rules[rule] = "residual decision structure of check_type per annotation shape vs oracle; non-trivial = distinct residual paths"
     for r in pmap(shape_worker, list(SHAPES)):
         rep.functions |= set(r["functions"])
         rep.evaluations += len(r["rows"])
         for row in r["rows"]:
             rep.nontrivial.add((r["shape"], repr(row["ret"]), tuple(map(repr, row["dec"]))))
         bad = _validate(r["shape"], r["rows"])
-        rep.oblige("C15.S", r["shape"], not bad, "; ".join(bad[:2]) or f"{len(r['rows'])} residual paths")
+        rep.oblige(rule, r["shape"], not bad, "; ".join(bad[:2]) or f"{len(r['rows'])} residual paths")
         rep.sample({"shape": r["shape"], "paths": [[repr(row["ret"]), [f"{'/'.join(k)}={v}" for k, v in row["dec"][-4:]]] for row in r["rows"][:3]]})
         for b in bad:
-            rep.violate(Violation("C15.S", f"C15.S|{r['shape']}|{b[:80]}", f"check_type on {r['shape']}: {b}", "", "check_type"))
+            rep.violate(Violation(rule, f"{rule}|{r['shape']}|{b[:80]}", f"check_type on {r['shape']}: {b}", "", "check_type"))
+
+
+
+def _check_main(ctx, rep: Report):
+    rep.extra["exhaustive"] = True
+    shapes_rule(ctx, rep)
 
     # ---- B
     rep.rules["C15.B"] = "bounded(): validator verdict for every combination of (bound absent | obj <,==,> bound) x 4 bounds x (bound truthy/falsy): exhaustive"
@@ -305,3 +310,10 @@ def check(ctx, rep: Report):
     rep.oblige("C15.M", "validated", ok)
     if not ok:
         rep.violate(Violation("C15.M", "C15.M|validated", "validated() no longer installs the validator as the class's `validate`", "", "validated"))
+
+
+def check(ctx, rep):
+    from . import metarules, shared
+    _check_main(ctx, rep)
+    metarules.metaclass_identity(ctx, rep, "C15.M")
+    shared.unused_params(ctx, rep, "C15.PARAM", ["spec_classes.types.validated", "spec_classes.utils.type_checking"], floor=3)
